@@ -126,7 +126,9 @@ def run_case(ctx, rng, index, casedir):
         sit["default_chromosome_order_runs"] += 1
     else:
         g = OC.gen_graph(rng, n_chrom=rng.choice([1, 2, 3, 4]) if not big else 1, scaffolds=scaff,
-                         id_style=rng.choice(["s", "s", "name", "num"]), singletons=rng.choice([0, 0, 0, 1, 2]) if not big else 0)
+                         id_style=rng.choice(["s", "s", "name", "num"]), singletons=rng.choice([0, 0, 0, 1, 2]) if not big else 0,
+                         contig_major=0.12 if not big else 0.0)
+        sit["chromosomes_named_after_an_assembly_contig"] += sum(1 for c in g.chroms if "ref" in c)
     gpath = os.path.join(casedir, "in.gfa" + (".gz" if rng.random() < 0.15 else ""))
     g.write(gpath, rng=rng, shuffle=rng.random() < 0.3)
     named = OC.components_of(g)
